@@ -190,4 +190,226 @@ theorem getLast?_drop {α : Type} (l : List α) (n : Nat) (h : n < l.length) :
   rw [List.getLast?_drop]
   simp [Nat.not_le.mpr h]
 
+/-! ### the loop -/
+
+/-- `renderLoop` appends well-formed pieces whose source tokens are the tokens it was given. -/
+theorem renderLoop_pieces (comments : Array Bytes) (hcm : wfComments comments) :
+    ∀ (f : Nat) (s s' : RSt) (ts : List Tok), renderLoop comments f s ts = some s' →
+      (∀ t ∈ ts, wfTok t = true) → linesOK f ts = true →
+      ∃ ps : List Piece, s'.out = s.out ++ piecesBytes ps ∧ (∀ p ∈ ps, p.ok) ∧ ps.flatMap Piece.src = ts := by
+  intro f
+  induction f with
+  | zero => intro s s' ts h; simp [renderLoop] at h
+  | succ f ih =>
+    intro s s' ts h hwf hlines
+    cases ts with
+    | nil =>
+      simp only [renderLoop, Option.some.injEq] at h
+      subst h
+      exact ⟨[], by simp [piecesBytes], by simp, rfl⟩
+    | cons t0 rest =>
+      rw [linesOK, Bool.and_eq_true] at hlines
+      obtain ⟨hline, hrestOK⟩ := hlines
+      rw [renderLoop] at h
+      simp only [] at h
+      obtain ⟨psF, hF1, hF2, hF3, hF4, hF5, hF6⟩ := flushComments_pieces comments hcm
+        ((s.indent : Int) + if s.prevLineHanging then 2 else 0) t0.line (t0.line - s.commentLine + 1) s
+      generalize flushComments comments ((s.indent : Int) + if s.prevLineHanging then 2 else 0) t0.line
+        (t0.line - s.commentLine + 1) s = s1 at h hF1 hF4 hF5 hF6
+      have hts : t0 :: rest = (t0 :: rest.takeWhile (·.line == t0.line)) ++ rest.dropWhile (·.line == t0.line) := by
+        simp
+      generalize hg : t0 :: rest.takeWhile (·.line == t0.line) = g at h hline hts
+      obtain ⟨semis, hsplit, hsemi, hslen⟩ := stripSemicolons_split g
+      unfold lineOK at hline
+      simp only at hline
+      generalize (stripSemicolons g).2 = stripped at h
+      generalize (stripSemicolons g).1 = lt at h hline hsplit hslen
+      split at h
+      · simp at hline
+      · rename_i lt0 ltRest
+        generalize hX : (if (lt0 :: ltRest).length < 4 then _ else _ : Bytes × List Tok × Bool × Nat) = X at h
+        generalize hY : (if s1.prevLine < t0.line - 1 then _ else _ : Bytes × Nat) = Y at h hX
+        -- the alignment block: indentation, names, padding; the other tokens
+        generalize hB : ((Option.map (fun x => x.id) ltRest.head?).getD 0 == idConst || lt0.id == idVar || _ : Bool) = B at hX
+        have hshape : ∃ (z : Int) (names : List Tok) (m : Nat),
+            X.1 = tabs z ++ (namesBytes names ++ List.replicate m 32) ∧
+            lt0 :: ltRest = names ++ X.2.1 ∧ X.2.1 ≠ [] ∧ X.2.1.getLast? = (lt0 :: ltRest).getLast? ∧
+            noBadPairs none X.2.1 = true := by
+          have hnb : noBadPairs none (lt0 :: ltRest) = true := by
+            cases hgl : (lt0 :: ltRest).getLast? with
+            | none => simp at hgl
+            | some last =>
+              rw [hgl] at hline
+              simp only [Bool.and_eq_true] at hline
+              exact hline.2
+          have hnil : namesBytes [] ++ List.replicate 0 32 = ([] : Bytes) := rfl
+          rw [← hX]
+          by_cases h4 : (lt0 :: ltRest).length < 4
+          · rw [if_pos h4]
+            exact ⟨_, [], 0, by rw [hnil, List.append_nil], by simp, by simp, rfl, hnb⟩
+          · rw [if_neg h4]
+            cases B with
+            | false =>
+              rw [if_neg (by simp)]
+              exact ⟨_, [], 0, by rw [hnil, List.append_nil], by simp, by simp, rfl, hnb⟩
+            | true =>
+              rw [if_pos rfl]
+              cases hcolon : findColon (lt0 :: ltRest) with
+              | none =>
+                exact ⟨_, [], 0, by rw [hnil, List.append_nil], by simp, by simp, rfl, hnb⟩
+              | some colon =>
+                have hlt := findIdx?_lt _ _ _ hcolon
+                simp only []
+                exact ⟨_, (lt0 :: ltRest).take colon, _,
+                  by rw [namesBytes_foldl, List.nil_append, List.append_assoc],
+                  (List.take_append_drop _ _).symm,
+                  by simp only [ne_eq, List.drop_eq_nil_iff, Nat.not_le]; exact hlt,
+                  getLast?_drop _ _ hlt, noBadPairs_drop _ _ hnb⟩
+        obtain ⟨z, names, m, hX1, hX2, hX3, hX4, hX5⟩ := hshape
+        have hY1 : Y.1 = s1.out ++ piecesBytes (if s1.prevLine < t0.line - 1 then [Piece.blank] else []) := by
+          rw [← hY]
+          split <;> simp [piecesBytes, Piece.bytes]
+        generalize X.1 = buf1 at h hX1
+        generalize X.2.1 = lts at h hX2 hX3 hX4 hX5
+        split at h
+        · exact absurd h (by simp)
+        · rename_i a ha
+          have hbuf := renderToks_buf _ _ _ ha
+          simp only at hbuf
+          have hwfg : ∀ t ∈ g, wfTok t = true := by
+            intro t ht
+            apply hwf
+            rw [hts]
+            exact List.mem_append_left _ ht
+          have hwfsrc : ∀ t ∈ rest.dropWhile (·.line == t0.line), wfTok t = true := by
+            intro t ht
+            apply hwf
+            rw [hts]
+            exact List.mem_append_right _ ht
+          obtain ⟨ps', hp1, hp2, hp3⟩ := ih _ _ _ h hwfsrc hrestOK
+          simp only at hp1
+          obtain ⟨com, hcw, _, hct⟩ := commentText_shape comments hcm t0.line 0
+          rw [hct, hbuf, hX1, hY1, hF1] at hp1
+          refine ⟨psF ++ (if s1.prevLine < t0.line - 1 then [Piece.blank] else []) ++
+            [Piece.toks (4 * z).toNat names m lts com semis] ++ ps', ?_, ?_, ?_⟩
+          · rw [hp1]
+            simp only [piecesBytes, List.flatMap_append, List.flatMap_cons, List.flatMap_nil, Piece.bytes,
+              List.append_assoc, List.append_nil, tabs_replicate]
+          · intro p hp
+            simp only [List.mem_append, List.mem_singleton] at hp
+            rcases hp with ((hp | hp) | hp) | hp
+            · exact hF2 p hp
+            · split at hp
+              · simp only [List.mem_singleton] at hp; subst hp; trivial
+              · simp at hp
+            · subst hp
+              have hmem : ∀ t, t ∈ names ∨ t ∈ lts → t ∈ g := by
+                intro t ht
+                rw [hsplit, hX2]
+                rcases ht with ht | ht
+                · exact List.mem_append_left _ (List.mem_append_left _ ht)
+                · exact List.mem_append_left _ (List.mem_append_right _ ht)
+              refine ⟨fun t ht => hwfg t (hmem t (Or.inl ht)), fun t ht => hwfg t (hmem t (Or.inr ht)),
+                hX3, hX5, hcw, ?_, ?_⟩
+              · intro t ht
+                exact semicolon_text (hwfg t (by rw [hsplit]; exact List.mem_append_right _ ht)) (hsemi t ht)
+              · rw [hslen]
+                unfold endsStatement
+                rw [hX4]
+                cases hgl : (lt0 :: ltRest).getLast? with
+                | none => simp at hgl
+                | some last =>
+                  rw [hgl] at hline
+                  simp only [Bool.and_eq_true, beq_iff_eq] at hline
+                  exact hline.1
+            · exact hp2 p hp
+          · simp only [List.flatMap_append, List.flatMap_cons, List.flatMap_nil, hF3, hp3, Piece.src,
+              List.nil_append, List.append_nil]
+            have : List.flatMap Piece.src (if s1.prevLine < t0.line - 1 then [Piece.blank] else []) = [] := by
+              split <;> simp [Piece.src]
+            rw [this, List.nil_append, ← hX2, ← hsplit, ← hts]
+
+/-- the trailing comments -/
+theorem trailingComments_pieces (comments : Array Bytes) (hcm : wfComments comments) :
+    ∀ (f : Nat) (s : RSt), ∃ ps : List Piece,
+      (trailingComments comments f s).out = s.out ++ piecesBytes ps ∧
+      (∀ p ∈ ps, p.ok) ∧ ps.flatMap Piece.src = [] := by
+  intro f
+  induction f with
+  | zero => intro s; exact ⟨[], by simp [trailingComments, piecesBytes], by simp, rfl⟩
+  | succ f ih =>
+    intro s
+    rw [trailingComments]
+    split
+    · obtain ⟨com, hw, hct, _⟩ := commentText_shape comments hcm s.commentLine s.indent
+      simp only
+      rw [hct, commentText_isEmpty com hw]
+      by_cases hc : com.isEmpty = true
+      · simp only [hc, ↓reduceIte]
+        exact ih { s with commentLine := s.commentLine + 1 }
+      · simp only [hc, Bool.false_eq_true, ↓reduceIte]
+        have hne : com ≠ [] := by simpa using hc
+        obtain ⟨ps, h1, h2, h3⟩ := ih { s with
+          out := s.out ++ (if s.commentLine > s.prevLine + 1 then [10] else []) ++
+            (tabs s.indent ++ stripTrailingSpaces com) ++ [10],
+          prevLine := s.commentLine, commentLine := s.commentLine + 1 }
+        refine ⟨(if s.commentLine > s.prevLine + 1 then [Piece.blank] else []) ++
+          Piece.comment (4 * (s.indent : Int)).toNat com :: ps, ?_, ?_, ?_⟩
+        · rw [h1]
+          simp only [piecesBytes, List.flatMap_append, List.flatMap_cons, Piece.bytes, tabs_replicate]
+          split <;> simp [Piece.bytes, List.append_assoc]
+        · intro p hp
+          rw [List.mem_append] at hp
+          rcases hp with hp | hp
+          · split at hp
+            · simp only [List.mem_singleton] at hp; subst hp; trivial
+            · simp at hp
+          · rcases List.mem_cons.mp hp with rfl | hp
+            · exact ⟨hw, hne⟩
+            · exact h2 p hp
+        · rw [List.flatMap_append, List.flatMap_cons, h3]
+          split <;> simp [Piece.src]
+    · exact ⟨[], by simp [piecesBytes], by simp, rfl⟩
+
+/-- `Render`'s output is a list of well-formed pieces whose source tokens are the input tokens. -/
+theorem render_pieces (toks : List Tok) (comments : Array Bytes) (out : Bytes)
+    (hwf : ∀ t ∈ toks, wfTok t = true) (hcm : wfComments comments)
+    (hlines : linesOK (toks.length + 1) toks = true) (h : render toks comments = some out) :
+    ∃ ps : List Piece, out = piecesBytes ps ∧ (∀ p ∈ ps, p.ok) ∧ ps.flatMap Piece.src = toks := by
+  unfold render at h
+  split at h
+  · rename_i he
+    simp only [Bool.and_eq_true, List.isEmpty_iff] at he
+    simp only [Option.some.injEq] at h
+    exact ⟨[], by rw [← h]; rfl, by simp, by simp [he.1]⟩
+  · simp only at h
+    split at h
+    · exact absurd h (by simp)
+    · rename_i s hs
+      obtain ⟨ps1, h1, h2, h3⟩ := renderLoop_pieces comments hcm _ _ _ _ hs hwf hlines
+      obtain ⟨ps2, g1, g2, g3⟩ := trailingComments_pieces comments hcm (comments.size + 1) s
+      simp only [Option.some.injEq] at h
+      refine ⟨ps1 ++ ps2, ?_, ?_, ?_⟩
+      · rw [← h, g1, h1]
+        simp [piecesBytes]
+      · intro p hp
+        rcases List.mem_append.mp hp with hp | hp
+        · exact h2 p hp
+        · exact g2 p hp
+      · rw [List.flatMap_append, h3, g3, List.append_nil]
+
+/-- every piece ends its line -/
+theorem pieces_length_le_newlines (ps : List Piece) : ps.length ≤ (piecesBytes ps).count 10 := by
+  induction ps with
+  | nil => simp [piecesBytes]
+  | cons p ps ih =>
+    have hp : 1 ≤ p.bytes.count 10 := by
+      cases p with
+      | blank => simp [Piece.bytes]
+      | comment k com => simp only [Piece.bytes, List.count_append, List.count_singleton_self]; omega
+      | toks k names m lts com semis =>
+        simp only [Piece.bytes, List.count_append, List.count_singleton_self]; omega
+    simp only [piecesBytes, List.flatMap_cons, List.count_append, List.length_cons] at ih ⊢
+    omega
+
 end WuffsVerif.Render
